@@ -61,6 +61,8 @@ for f in ('patch.diff', 'demo.py', 'notes.md'):
 if os.path.exists(os.path.join(dst, 'meta.json')):
     old = json.load(open(os.path.join(dst, 'meta.json')))
     meta.setdefault('history', old.get('history', []))
+    if 'baseline' not in meta and old.get('baseline'):
+        meta['baseline'] = old['baseline']           # confirmed in an earlier evaluation
     meta['history'].append({k: old.get(k) for k in ('caught_by', 'base_commit')})
 json.dump(meta, open(os.path.join(dst, 'meta.json'), 'w'), indent=1, sort_keys=True)
 print(json.dumps({k: meta[k] for k in ('id', 'demo', 'caught_by') if k in meta}, indent=1))
